@@ -14,6 +14,7 @@
      round_end  quiescence: exactly-once accounting
      log        a log record captured at the section's level (leak scan result)
      stats      the server's statistics getters, compared with the traffic of the section
+     publish    the status timer's step run on the real server; what its queue then held (see TNext)
      grease_end fault-injection section end: failing share within 6 sigma of p *)
 EXTENDS ServerAbs, Json, IOUtils, TLCExt, Integers
 
@@ -24,7 +25,9 @@ tvars == <<reqs, roots, totals, l, fault>>
 Bad(reasons) == IF reasons = {} THEN TRUE ELSE TLCSet(2, TLCGet(2) \o <<[i |-> l, why |-> reasons]>>)
 SetOf(seq) == {seq[i] : i \in 1..Len(seq)}
 
-ZeroTotals == [arrivals |-> 0, replies |-> 0, bytes |-> 0, greased |-> 0, failing |-> 0, unroutable |-> 0]
+ZeroTotals == [arrivals |-> 0, replies |-> 0, bytes |-> 0, greased |-> 0, failing |-> 0, unroutable |-> 0, socks |-> {}]
+\* the harness's client sockets are bound to 127.0.0.(1 + i % 200); the unroutable source is 127.0.0.1
+IpOf(sock) == IF sock = 9999 THEN 1 ELSE 1 + (sock % 200)
 
 TInit == /\ l = 1 /\ TLCSet(2, <<>>) /\ reqs = NoReqs /\ roots = {} /\ totals = ZeroTotals /\ fault = [p |-> 0, b |-> 0]
 
@@ -61,6 +64,22 @@ TNext ==
                      \cup (IF e.responses = totals.replies THEN {} ELSE {"stats_responses"})
                      \cup (IF e.bytes = totals.bytes THEN {} ELSE {"stats_bytes"}))
               /\ UNCHANGED <<reqs, roots, totals, fault>>
+         [] e.ev = "publish" ->
+              \* Server::send_client_stats (the status timer's step) on the REAL server, then everything popped from its queue:
+              \* with the per-client recorder a snapshot is pushed iff anything was recorded since the last publication; it
+              \* holds one entry per source address and exactly the traffic; the recorder starts over. The aggregated
+              \* recorder publishes nothing.
+              LET expectPush == e.client_stats /\ totals.arrivals > 0 IN
+              /\ Bad(IF e.panic THEN {"panic"}
+                     ELSE IF ~expectPush THEN (IF e.snapshots = 0 THEN {} ELSE {"stats_publication"})
+                     ELSE IF /\ e.snapshots = 1 /\ e.post_zero
+                             /\ e.entries = Cardinality({IpOf(s) : s \in totals.socks})
+                             /\ e.valid = totals.replies + totals.unroutable
+                             /\ e.invalid = totals.arrivals - totals.replies - totals.unroutable
+                             /\ e.responses = totals.replies /\ e.bytes = totals.bytes /\ e.failed = totals.unroutable
+                          THEN {} ELSE {"stats_publication"})
+              /\ totals' = (IF expectPush THEN ZeroTotals ELSE totals)
+              /\ UNCHANGED <<reqs, roots, fault>>
          [] e.ev = "grease_end" ->
               /\ Bad(IF totals.replies >= e.min_replies /\ GreaseOk(totals.failing, totals.replies, fault.p) THEN {} ELSE {"fault_rate"})
               /\ UNCHANGED <<reqs, roots, totals, fault>>
